@@ -6,7 +6,7 @@
 // length x key value classes x block value classes x {separate, in-place} x
 // {Encrypt, Decrypt}; Blowfish additionally NewSaltedCipher over key length 0..80 x salt
 // length menu and every ExpandKey re-keying history up to depth 2 over a key-length menu;
-// TEA every round count 0..130; RC2 the full product key length 1..128 x effective bits
+// TEA every round count 0..130 (and around the 8-/16-bit widths of rounds and rounds/2); RC2 the full product key length 1..128 x effective bits
 // 1..1024 (RFC 2268 range). Oracle: reference models in /verif/ref (tables computed from
 // pi / q-construction, or transcribed from libgcrypt+OpenSSL and validated with the RFC
 // vectors).
@@ -158,7 +158,7 @@ func dup(b []byte) []byte { return append(make([]byte, 0, len(b)), b...) }
 
 func run(c *vf.Ctx) {
 	c.Rule("per cipher: every key length 0..80 (accept/reject = documentation) x every accepted length x key value classes x block value classes x {Encrypt,Decrypt} x {separate,in-place,long buffers}; " +
-		"Blowfish: + NewSaltedCipher keylen 0..80 x saltlen menu, + all ExpandKey histories to depth 2 over keylen menu; TEA: all round counts 0..130; " +
+		"Blowfish: + NewSaltedCipher keylen 0..80 x saltlen menu, + all ExpandKey histories to depth 2 over keylen menu; TEA: all round counts 0..130 and 254..258, 510..514, 600, 1022/1024/1026, 65534..65538, 131070/131072/131074; " +
 		"RC2: full product keylen 1..128 x effective bits 1..1024; non-trivial = distinct (cipher, constructor variant, key length, salt length / rounds / effective bits, history) accepted and compared with the reference model")
 	c.Assume("values outside the alphabet (4 fixed classes + seeded classes, plus extra seeded keys for table coverage) are not enumerated; shapes are")
 	c.Assume("TEA/XTEA byte order is big-endian (package convention; the Wheeler-Needham notes define 32-bit words only)")
@@ -441,7 +441,15 @@ func run(c *vf.Ctx) {
 			c.Nontrivial(fmt.Sprintf("tea/default/key#%d", ki))
 		}
 	})
-	c.ParallelFor(131, func(rounds int) {
+	// every round count 0..130, plus counts on both sides of the 8- and 16-bit width boundaries of
+	// rounds and of rounds/2 (a cycle count or start sum kept in a narrower integer; seed c12r6)
+	teaRounds := make([]int, 0, 160)
+	for r := 0; r <= 130; r++ {
+		teaRounds = append(teaRounds, r)
+	}
+	teaRounds = append(teaRounds, 254, 255, 256, 257, 258, 510, 511, 512, 513, 514, 600, 1022, 1024, 1026, 65534, 65535, 65536, 65537, 65538, 131070, 131072, 131074)
+	c.ParallelFor(len(teaRounds), func(ri int) {
+		rounds := teaRounds[ri]
 		for _, n := range []int{0, 1, 8, 15, 16, 17, 24, 32} {
 			valid := n == 16 && rounds%2 == 0
 			for ki, key := range keysOf("tea-rkey", n, 0) {
